@@ -150,7 +150,7 @@ def run_check(prop: str, tier: str) -> int:
             "shrink_s": 30.0 if tier == "quick" else 60.0,
             "replay_dir": replay_dir,
         }
-        procs.append((f"lane{lane}", spawn(cfg, hash_seed_for_lane(base, lane), optimize_for_lane(lane))))
+        procs.append((f"lane{lane}", spawn(cfg, hash_seed_for_lane(base, lane), optimize_for_lane(lane) and not getattr(check, "NO_OPTIMIZE", False))))
     results, errors = collect(procs, budget * 3 + 300)
     if stop_file and os.path.exists(stop_file):
         os.remove(stop_file)
@@ -202,7 +202,7 @@ def run_check(prop: str, tier: str) -> int:
             if hash_free:
                 hs = 1 + (hs + 977) % 4096
             cfg = {"check": prop, "tier": tier, "base": base, "indices": mine, "hard_timeout": int(budget * 3 + 240), "max_violations": 0}
-            procs.append((f"det{lane}", spawn(cfg, hs, optimize_for_lane(lane))))
+            procs.append((f"det{lane}", spawn(cfg, hs, optimize_for_lane(lane) and not getattr(check, "NO_OPTIMIZE", False))))
         res_b, err_b = collect(procs, budget * 3 + 300)
         errors += err_b
         digests_b = {}
